@@ -114,7 +114,7 @@ Theorem C17_command_grammar_thm : forall prefix topic msg,
   (forall ch on, parser_set_on FIXED prefix topic msg = Some (ch, on) <->
                  exists cmd, grammar prefix topic ch cmd /\ set_on_cmd cmd msg = Some on) /\
   (forall ch a p t, parser_rs_fb FIXED prefix topic msg = Some (ch, a, p, t) <->
-                 exists cmd, grammar prefix topic ch cmd /\ rs_cmd cmd msg = Some (a, p, t)).
+                 exists cmd, grammar prefix topic ch cmd /\ rs_cmd FIXED cmd msg = Some (a, p, t)).
 Proof.
   intros prefix topic msg NP NM. split.
   - intros ch on. unfold parser_set_on. split.
@@ -124,7 +124,7 @@ Proof.
     + intros (cmd & G & S). apply (parse_head_iff prefix topic msg ch cmd NP NM) in G. rewrite G, S. reflexivity.
   - intros ch a p t. unfold parser_rs_fb. split.
     + destruct (parse_head FIXED prefix topic msg) as [[c cmd]|] eqn:H; [|discriminate].
-      destruct (rs_cmd cmd msg) as [[[a' p'] t']|] eqn:S; [|discriminate]. intros Q; inversion Q; subst.
+      destruct (rs_cmd FIXED cmd msg) as [[[a' p'] t']|] eqn:S; [|discriminate]. intros Q; inversion Q; subst.
       exists cmd. split; [apply (parse_head_iff prefix topic msg ch cmd NP NM); exact H|exact S].
     + intros (cmd & G & S). apply (parse_head_iff prefix topic msg ch cmd NP NM) in G. rewrite G, S. reflexivity.
 Qed.
@@ -476,11 +476,12 @@ Qed.
 
 (* ------------------------------------------------------------------------------------------ *)
 (* the unrepaired code: witnesses (replayed on the real code, see corpus/C17) *)
-Definition OLD_NOAUTH : fixes := {| fx_noauth := false; fx_tail := true; fx_chan := true; fx_slash := true; fx_uval := true |}.
-Definition OLD_TAIL : fixes := {| fx_noauth := true; fx_tail := false; fx_chan := true; fx_slash := true; fx_uval := true |}.
-Definition OLD_CHAN : fixes := {| fx_noauth := true; fx_tail := true; fx_chan := false; fx_slash := true; fx_uval := true |}.
-Definition OLD_SLASH : fixes := {| fx_noauth := true; fx_tail := true; fx_chan := true; fx_slash := false; fx_uval := true |}.
-Definition OLD_UVAL : fixes := {| fx_noauth := true; fx_tail := true; fx_chan := true; fx_slash := true; fx_uval := false |}.
+Definition OLD_NOAUTH : fixes := {| fx_noauth := false; fx_tail := true; fx_chan := true; fx_slash := true; fx_uval := true; fx_digits := true |}.
+Definition OLD_TAIL : fixes := {| fx_noauth := true; fx_tail := false; fx_chan := true; fx_slash := true; fx_uval := true; fx_digits := true |}.
+Definition OLD_CHAN : fixes := {| fx_noauth := true; fx_tail := true; fx_chan := false; fx_slash := true; fx_uval := true; fx_digits := false |}.
+Definition OLD_DIGITS : fixes := {| fx_noauth := true; fx_tail := true; fx_chan := true; fx_slash := true; fx_uval := true; fx_digits := false |}.
+Definition OLD_SLASH : fixes := {| fx_noauth := true; fx_tail := true; fx_chan := true; fx_slash := false; fx_uval := true; fx_digits := true |}.
+Definition OLD_UVAL : fixes := {| fx_noauth := true; fx_tail := true; fx_chan := true; fx_slash := true; fx_uval := false; fx_digits := true |}.
 
 Definition w_cfg_noauth : cfg := {| c_user := [117;115;101;114] ++ zeros 252; c_pass := [112;119] ++ zeros 31; c_prefix := zeros 50;
                                    c_guid := [1;2;3;4;5;6;7;8;9;10;11;12;13;14;15;16]; c_flags := 9 |}.
@@ -521,3 +522,145 @@ Proof.
   split; [exact w_cfg_tail_stored|].
   vm_compute. repeat split; reflexivity.
 Qed.
+
+(* ------------------------------------------------------------------------------------------ *)
+(* numeric values of commands: grammar  ['-'] digit+ ['.' digit*] , value = the integer part *)
+Definition frac_part (ofp : option (list Z)) : list Z := match ofp with Some f => 46 :: f | None => [] end.
+Definition number_shape (s : list Z) (neg : bool) (ip : list Z) (ofp : option (list Z)) : Prop :=
+  s = (if neg then [45] else []) ++ ip ++ frac_part ofp /\ ip <> [] /\ forallb is_digit ip = true /\
+  (forall f, ofp = Some f -> forallb is_digit f = true).
+
+Lemma span_digits_spec r : forall ip rest, span_digits r = (ip, rest) ->
+  r = ip ++ rest /\ forallb is_digit ip = true /\ match rest with [] => True | c :: _ => is_digit c = false end.
+Proof.
+  induction r as [|d t IH]; intros ip rest H; cbn [span_digits] in H.
+  - inversion H; subst. auto.
+  - destruct (is_digit d) eqn:D.
+    + destruct (span_digits t) as [a b]. inversion H; subst. destruct (IH a rest eq_refl) as (E & F & G).
+      cbn [app forallb]. rewrite D, F, <- E. auto.
+    + inversion H; subst. cbn [app forallb]. rewrite D. auto.
+Qed.
+Lemma span_digits_app ip rest : forallb is_digit ip = true -> match rest with [] => True | c :: _ => is_digit c = false end ->
+  span_digits (ip ++ rest) = (ip, rest).
+Proof.
+  intros F G. induction ip as [|d t IH]; cbn [app].
+  - destruct rest as [|c r]; [reflexivity|]. cbn [span_digits]. rewrite G. reflexivity.
+  - cbn [forallb] in F. apply andb_true_iff in F. destruct F as [F1 F2]. cbn [span_digits]. rewrite F1, (IH F2). reflexivity.
+Qed.
+Lemma digits_val_ge l : forall acc, 0 <= acc -> forallb is_digit l = true -> acc <= digits_val acc l.
+Proof.
+  induction l as [|d t IH]; intros acc A F; cbn [digits_val]; [lia|]. cbn [forallb] in F. apply andb_true_iff in F.
+  destruct F as [F1 F2]. unfold is_digit in F1. apply andb_true_iff in F1. destruct F1 as [L1 L2]. apply Z.leb_le in L1.
+  specialize (IH (acc * 10 + (d - 48)) ltac:(lia) F2). lia.
+Qed.
+Lemma acc_int_val l : forall acc m, acc_int acc l = Some m -> m = digits_val acc l.
+Proof.
+  induction l as [|d t IH]; intros acc m H; cbn [acc_int digits_val] in *; [congruence|].
+  destruct (214748363 <? acc); [discriminate|]. apply IH; exact H.
+Qed.
+Lemma acc_int_small l : forall acc, 0 <= acc -> forallb is_digit l = true -> digits_val acc l <= 2147483639 ->
+  acc_int acc l = Some (digits_val acc l).
+Proof.
+  induction l as [|d t IH]; intros acc A F B; cbn [acc_int digits_val] in *; [reflexivity|].
+  cbn [forallb] in F. apply andb_true_iff in F. destruct F as [F1 F2]. pose proof F1 as F1'. unfold is_digit in F1'.
+  apply andb_true_iff in F1'. destruct F1' as [L1 L2]. apply Z.leb_le in L1.
+  pose proof (digits_val_ge t (acc * 10 + (d - 48)) ltac:(lia) F2).
+  replace (214748363 <? acc) with false by (symmetry; apply Z.ltb_ge; lia). apply IH; auto; lia.
+Qed.
+
+Lemma acc_int_bound l : forall acc m, 0 <= acc <= 2147483647 -> forallb is_digit l = true -> acc_int acc l = Some m -> m <= 2147483647.
+Proof.
+  induction l as [|d t IH]; intros acc m B F H; cbn [acc_int] in H; [inversion H; lia|].
+  destruct (214748363 <? acc) eqn:E; [discriminate|]. apply Z.ltb_ge in E. cbn [forallb] in F. apply andb_true_iff in F.
+  destruct F as [F1 F2]. unfold is_digit in F1. apply andb_true_iff in F1. destruct F1 as [L1 L2]. apply Z.leb_le in L1. apply Z.leb_le in L2.
+  apply (IH (acc * 10 + (d - 48)) m); auto; lia.
+Qed.
+
+(* accepted  =>  the whole value matches the grammar and the result is its integer part (with the sign) *)
+Theorem C17_number_grammar_thm : forall s v, str2int FIXED s = Some v ->
+  exists neg ip ofp, number_shape s neg ip ofp /\ v = (if neg then - digits_val 0 ip else digits_val 0 ip) /\
+                     0 <= digits_val 0 ip <= 2147483647.
+Proof.
+  intros s v. unfold str2int. cbn [fx_digits FIXED].
+  set (nr := match s with c :: t => if c =? 45 then (true, t) else (false, s) | [] => (false, s) end).
+  assert (NR : s = (if fst nr then [45] else []) ++ snd nr).
+  { unfold nr. destruct s as [|c t]; [reflexivity|]. destruct (c =? 45) eqn:E; [apply Z.eqb_eq in E; subst|]; reflexivity. }
+  destruct nr as [neg r]. cbn [fst snd] in NR.
+  destruct (span_digits r) as [ip rest] eqn:SP. destruct (span_digits_spec r ip rest SP) as (E & F & G).
+  destruct rest as [|c frac].
+  - destruct (len ip =? 0) eqn:L0; [discriminate|]. destruct (acc_int 0 ip) as [m|] eqn:A; [|discriminate].
+    intros H; inversion H; subst v. pose proof (acc_int_val _ _ _ A) as M. subst m.
+    exists neg, ip, None. split; [|split; [reflexivity|]].
+    + repeat split; auto; [rewrite NR, E; reflexivity|intros N; subst ip; discriminate|discriminate].
+    + split; [apply (digits_val_ge ip 0); [lia|exact F]|].
+      apply (acc_int_bound ip 0 _ ltac:(lia) F A).
+  - destruct ((c =? 46) && (neg || negb (len ip =? 0)) && forallb is_digit frac) eqn:OK; [|discriminate].
+    apply andb_true_iff in OK. destruct OK as [OK FR]. apply andb_true_iff in OK. destruct OK as [C46 _]. apply Z.eqb_eq in C46. subst c.
+    destruct (len ip =? 0) eqn:L0; [discriminate|]. destruct (acc_int 0 ip) as [m|] eqn:A; [|discriminate].
+    intros H; inversion H; subst v. pose proof (acc_int_val _ _ _ A) as M. subst m.
+    exists neg, ip, (Some frac). split; [|split; [reflexivity|]].
+    + repeat split; auto; [rewrite NR, E; reflexivity|intros N; subst ip; discriminate|intros f Q; inversion Q; subst; exact FR].
+    + split; [apply (digits_val_ge ip 0); [lia|exact F]|].
+      apply (acc_int_bound ip 0 _ ltac:(lia) F A).
+Qed.
+
+(* conversely every value of the grammar whose integer part fits an int is accepted *)
+Theorem C17_number_accepted_thm : forall s neg ip ofp, number_shape s neg ip ofp -> digits_val 0 ip <= 2147483639 ->
+  str2int FIXED s = Some (if neg then - digits_val 0 ip else digits_val 0 ip).
+Proof.
+  intros s neg ip ofp (E & NE & F & FF) B. unfold str2int. cbn [fx_digits FIXED].
+  assert (HD : exists d0 t0, ip = d0 :: t0 /\ is_digit d0 = true).
+  { destruct ip as [|d0 t0]; [congruence|]. cbn [forallb] in F. apply andb_true_iff in F. exists d0, t0. tauto. }
+  destruct HD as (d0 & t0 & EI & D0).
+  assert (N45 : (d0 =? 45) = false) by (unfold is_digit in D0; apply andb_true_iff in D0; destruct D0 as [L _]; apply Z.leb_le in L; apply Z.eqb_neq; lia).
+  assert (NR : match s with c :: t => if c =? 45 then (true, t) else (false, s) | [] => (false, s) end = (neg, ip ++ frac_part ofp)).
+  { rewrite E. destruct neg; cbn [app]; [reflexivity|]. rewrite EI. cbn [app]. rewrite N45. reflexivity. }
+  rewrite NR.
+  assert (G : match frac_part ofp with [] => True | c :: _ => is_digit c = false end) by (destruct ofp; cbn [frac_part]; auto).
+  rewrite (span_digits_app ip (frac_part ofp) F G).
+  assert (L0 : (len ip =? 0) = false) by (apply Z.eqb_neq; rewrite EI, len_cons; pose proof (len_nonneg t0); lia).
+  assert (OK : match frac_part ofp with [] => true | c :: frac => (c =? 46) && (neg || negb (len ip =? 0)) && forallb is_digit frac end = true).
+  { destruct ofp as [f|]; cbn [frac_part]; [|reflexivity]. rewrite L0, (FF f eq_refl). cbn. rewrite orb_true_r. reflexivity. }
+  rewrite OK, L0, (acc_int_small ip 0 ltac:(lia) F B). reflexivity.
+Qed.
+
+(* percentages: accepted iff the value has the grammar and its integer part is 0..100 (a minus sign only before zero) *)
+Theorem C17_percent_thm : forall msg p, percent FIXED msg = Some p <->
+  exists neg ip ofp, number_shape msg neg ip ofp /\ p = digits_val 0 ip /\ 0 <= p <= 100 /\ (neg = true -> p = 0).
+Proof.
+  intros msg p. unfold percent. split.
+  - destruct (str2int FIXED msg) as [v|] eqn:S; [|discriminate].
+    destruct (C17_number_grammar_thm msg v S) as (neg & ip & ofp & SH & V & R).
+    destruct ((0 <=? v) && (v <=? 100)) eqn:B; [|discriminate]. apply andb_true_iff in B. destruct B as [B1 B2].
+    apply Z.leb_le in B1. apply Z.leb_le in B2. intros H; inversion H; subst p.
+    exists neg, ip, ofp. split; [exact SH|]. destruct neg; (split; [lia|split; [lia|intros; try discriminate; lia]]).
+  - intros (neg & ip & ofp & SH & P & R & N).
+    rewrite (C17_number_accepted_thm msg neg ip ofp SH ltac:(lia)).
+    assert (V : (if neg then - digits_val 0 ip else digits_val 0 ip) = p) by (destruct neg; [specialize (N eq_refl)|]; lia).
+    rewrite V. replace ((0 <=? p) && (p <=? 100)) with true by (symmetry; apply andb_true_iff; split; apply Z.leb_le; lia). reflexivity.
+Qed.
+
+(* the dimmer command *)
+Theorem C17_brightness_grammar_thm : forall prefix topic msg ch p, prefix <> [] -> msg <> [] ->
+  (parser_brightness FIXED prefix topic msg = Some (ch, p) <->
+   grammar prefix topic ch s_set_brightness /\ percent FIXED msg = Some p).
+Proof.
+  intros prefix topic msg ch p NP NM. unfold parser_brightness. split.
+  - destruct (parse_head FIXED prefix topic msg) as [[c cmd]|] eqn:H; [|discriminate].
+    destruct (list_eqb cmd s_set_brightness) eqn:E; [|discriminate]. apply list_eqb_true in E. subst cmd.
+    destruct (percent FIXED msg) as [q|] eqn:P; [|discriminate]. intros Q; inversion Q; subst.
+    split; [apply (parse_head_iff prefix topic msg ch s_set_brightness NP NM); exact H|reflexivity].
+  - intros [G P]. apply (parse_head_iff prefix topic msg ch s_set_brightness NP NM) in G. rewrite G, list_eqb_refl, P. reflexivity.
+Qed.
+
+Theorem C17_old_str2int_refuted_thm :
+  (* "-" and "-.5" are read as 0 by the unrepaired supla_esp_mqtt_str2int: a roller shutter is fully opened *)
+  parser_rs_fb OLD_DIGITS w_P (w_P ++ [47] ++ s_channels ++ [51; 47] ++ s_set_closing) [45] = Some (3, ACT_SHUT_PCT, 0, 0) /\
+  parser_rs_fb FIXED w_P (w_P ++ [47] ++ s_channels ++ [51; 47] ++ s_set_closing) [45] = None /\
+  percent OLD_DIGITS [45; 46; 53] = Some 0 /\ percent FIXED [45; 46; 53] = None /\
+  parser_brightness OLD_DIGITS w_P (w_P ++ [47] ++ s_channels ++ [51; 47] ++ s_set_brightness) [45] = Some (3, 0) /\
+  parser_brightness FIXED w_P (w_P ++ [47] ++ s_channels ++ [51; 47] ++ s_set_brightness) [45] = None /\
+  (* unchanged in both: fraction digits are checked, the integer part is used *)
+  percent FIXED [53; 48; 46; 55] = Some 50 /\ percent FIXED [53; 48; 46; 120] = None /\ percent FIXED [49; 46; 50; 46; 51] = None /\
+  percent FIXED [48;48;48;48;48;48;48;48;48;48;48;48;53;48] = Some 50 /\ percent FIXED [52;50;57;52;57;54;55;51;52;54] = None.
+Proof. vm_compute. repeat split; reflexivity. Qed.
